@@ -335,7 +335,7 @@ def main_run(pid, tier, seed, jobs, only=None, replay=None):
             if k != "wall":
                 extra[k] = extra.get(k, 0) + v
     caps = getattr(mod, "caps_hit", lambda t: [])(tier)
-    slow = sorted(((r.extra.get("wall", 0), r.case_id) for r in results), reverse=True)[:3]
+    slow = sorted(((r.extra.get("wall", 0), r.case_id) for r in results), reverse=True)[:8]
     ev = {
         "property_id": pid, "tier": tier, "seed": int(seed), "level": "model_checking",
         "coverage": {
